@@ -39,9 +39,27 @@ def _worker(job):
 def pool_map(fn, jobs):
     n = min(16, os.cpu_count() or 4, max(1, len(jobs)))
     if n <= 1:
-        return [fn(j) for j in jobs]
-    with multiprocessing.Pool(n) as pool:
-        return pool.map(fn, jobs, chunksize=max(1, len(jobs) // (n * 4)))
+        res = [fn(j) for j in jobs]
+    else:
+        with multiprocessing.Pool(n) as pool:
+            res = pool.map(fn, jobs, chunksize=max(1, len(jobs) // (n * 4)))
+    for r, j in zip(res, jobs):
+        if isinstance(r, dict) and isinstance(j, tuple) and len(j) == 2:
+            try:
+                json.dumps(j[1])
+                r["job"] = [j[0], j[1]]
+            except TypeError:
+                r["job"] = [j[0], None]
+    return res
+
+
+def replay_jobs(replay):
+    """a replay file of the special runners carries the job (seed, configuration) that produced it"""
+    j = json.load(open(replay))
+    job = j.get("job")
+    if job and job[1] is not None:
+        return [(job[0], job[1])]
+    return None
 
 
 def corpus_jobs(prop):
@@ -101,7 +119,7 @@ def classify(prop, results, seed, allow_shrink=True):
                     cmds, metas, groups, best = K.shrink(cmds, metas, groups, prop, sig)
                 except Exception:
                     best = None
-            violations.append({"property": prop, "failing_input": True, "seed": r["seed"],
+            violations.append({"property": prop, "failing_input": True, "seed": r["seed"], "job": r.get("job"),
                                "what": m["note"], "mismatch": (best.to_json() if best else m),
                                "script": K.ser_cmds(cmds), "metas": metas, "groups": groups,
                                "how_to_replay": "./check %s --replay <this file>" % prop})
@@ -314,6 +332,8 @@ def c14_runner(prop, tier, seed, replay):
     jobs = []
     for i in range(n):
         jobs.append((seed * 100003 + i, {"backend": "f" if i % 3 else "m", "nw": 30 if tier == "thorough" else 18}))
+    if replay and replay_jobs(replay):
+        jobs = replay_jobs(replay)
     results = pool_map(_c14_worker, jobs)
     violations = []
     for r in results:
@@ -324,7 +344,7 @@ def c14_runner(prop, tier, seed, replay):
     for r in results:
         if r["ro_violations"]:
             v = r["ro_violations"][0]
-            violations.append({"property": prop, "failing_input": True, "seed": r["seed"],
+            violations.append({"property": prop, "failing_input": True, "seed": r["seed"], "job": r.get("job"),
                                "what": "read request (opcode %d) changed the stores: %r" % (v["op"], v),
                                "script": r["script"], "failing_command": v["index"]})
             break
@@ -557,6 +577,8 @@ def twin_runner(modes, rule, extra=None):
         for i in range(n):
             jobs.append((seed * 100003 + i, {"mode": modes[i % len(modes)], "nw": 28 if tier == "thorough" else 20,
                                              "focus": K.FACET_OPS[prop], "prop": prop}))
+        if replay and replay_jobs(replay):
+            jobs = replay_jobs(replay)
         results = pool_map(_twin_worker, jobs)
         violations = []
         for r in results:
@@ -567,7 +589,7 @@ def twin_runner(modes, rule, extra=None):
         for r in results:
             if r["twin"]:
                 t = r["twin"][0]
-                violations.append({"property": prop, "failing_input": True, "seed": r["seed"],
+                violations.append({"property": prop, "failing_input": True, "seed": r["seed"], "job": r.get("job"),
                                    "what": "the two indexes of the real implementation diverge at command %d (opcode %d)" % (t["index"], t["op"]),
                                    "divergence": t, "script": r["script"], "metas": r.get("metas"), "groups": r.get("groups")})
                 break
@@ -856,6 +878,8 @@ def c18_runner(prop, tier, seed, replay):
     n = 800 if tier == "thorough" else 96
     jobs = [(seed * 100003 + i, {"nw": 14 if tier == "thorough" else 9, "maxcuts": 400 if tier == "thorough" else 40})
             for i in range(n)]
+    if replay and replay_jobs(replay):
+        jobs = replay_jobs(replay)
     results = pool_map(_c18_worker, jobs)
     violations = []
     for r in results:
@@ -865,7 +889,7 @@ def c18_runner(prop, tier, seed, replay):
             break
     for r in results:
         if r.get("fault"):
-            violations.append({"property": prop, "failing_input": True, "seed": r["seed"], "what": r["fault"]["what"],
+            violations.append({"property": prop, "failing_input": True, "seed": r["seed"], "job": r.get("job"), "what": r["fault"]["what"],
                                "cut": r["fault"].get("cut"), "script": r.get("script"),
                                "how": "run the script on a fresh folder recording every storage write, rebuild both files from the "
                                       "first <cut> writes, reopen with Traph(folder)"})
@@ -1021,6 +1045,8 @@ def c16_runner(prop, tier, seed, replay):
         for sc in sorted(allsched):
             jobs.append((seed, {"nw": 3, "specs": pair, "sched": list(sc)}))
             nsched += 1
+    if replay and replay_jobs(replay):
+        jobs = replay_jobs(replay)
     results = pool_map(_c16_worker, jobs)
     violations = []
     for r in results:
@@ -1029,7 +1055,7 @@ def c16_runner(prop, tier, seed, replay):
             break
     for r in results:
         if r.get("fault"):
-            violations.append({"property": prop, "failing_input": True, "seed": r["seed"], "what": r["fault"]["what"], "script": r.get("script")})
+            violations.append({"property": prop, "failing_input": True, "seed": r["seed"], "job": r.get("job"), "what": r["fault"]["what"], "script": r.get("script")})
             break
     if not violations:
         v, k = classify(prop, results, seed, allow_shrink=False)
